@@ -229,7 +229,7 @@ def run(unit, em):
                 em.unknown(c, unit.text(c, 100), 'receiver not resolved', op)
                 continue
             if obj[0] == 'this':
-                scope = ('cls', fn.cls, fn.d.get('rc'))
+                scope = ('cls', fn.cls, fn.d.get('rcd'))
                 okey = obj[1:]
             else:
                 scope = ('fn', fn.d['d'], fn.sig)
